@@ -101,6 +101,10 @@ func toCoreTestSuite(xmlTestSuite *jUnitXMLTestSuite) core.TestSuite {
 		appendResult(test, &result)
 		testSuite.TestCases = append(testSuite.TestCases, result)
 	}
+	// Some tools nest suites inside suites; their cases count too.
+	for _, nested := range xmlTestSuite.TestSuites {
+		testSuite.TestCases = append(testSuite.TestCases, toCoreTestSuite(nested).TestCases...)
+	}
 	return testSuite
 }
 
@@ -289,10 +293,11 @@ type jUnitXMLTestSuite struct {
 	timed     `xml:"time,attr,omitempty"`
 	Timestamp string `xml:"timestamp,attr,omitempty"`
 
-	Properties jUnitXMLProperties `xml:"properties,omitempty"`
-	TestCases  []jUnitXMLTest     `xml:"testcase"`
-	Stdout     string             `xml:"system-out,omitempty"`
-	Stderr     string             `xml:"system-err,omitempty"`
+	Properties jUnitXMLProperties   `xml:"properties,omitempty"`
+	TestCases  []jUnitXMLTest       `xml:"testcase"`
+	TestSuites []*jUnitXMLTestSuite `xml:"testsuite"`
+	Stdout     string               `xml:"system-out,omitempty"`
+	Stderr     string               `xml:"system-err,omitempty"`
 
 	XMLName xml.Name `xml:"testsuite"`
 }
